@@ -134,6 +134,21 @@ def native_compose(integ, sleep):
   m = mjw.put_model(mjm)
   da, db = mjw.put_data(mjm, mjd), mjw.put_data(mjm, mjd)
   ma, mb = copy.copy(mjd), copy.copy(mjd)
+  if not sleep:  # the user sets a new state and control before stepping: every derived quantity in Data is stale
+    qv = rng.uniform(-1, 1, size=mjm.nv)
+    hinge = 0.4
+    for dd in (da, db):
+      v = dd.qvel.numpy()
+      v[0, :] = qv
+      dd.qvel = wp.array(v, dtype=float)
+      q = dd.qpos.numpy()
+      q[0, 7] = hinge
+      dd.qpos = wp.array(q, dtype=float)
+      dd.ctrl.fill_(-3.0)
+    for mm in (ma, mb):
+      mm.qvel[:] = qv
+      mm.qpos[7] = hinge
+      mm.ctrl[:] = -3.0
   if sleep:  # user input: push the first (sleeping) sphere upwards
     for dd in (da, db):
       x = dd.xfrc_applied.numpy()
@@ -149,7 +164,7 @@ def native_compose(integ, sleep):
   mujoco.mj_step2(mjm, mb)
   out = {}
   same = True
-  for f in ("qpos", "qvel", "act", "time", "history", "qacc_warmstart", "sensordata"):
+  for f in ("qpos", "qvel", "act", "time", "history", "qacc_warmstart", "sensordata", "energy", "qacc", "actuator_force"):
     a, b = getattr(da, f).numpy()[0], getattr(db, f).numpy()[0]
     ok = bool(np.allclose(a, b, rtol=1e-4, atol=1e-6))
     same = same and ok
@@ -168,7 +183,7 @@ def compose_replay(ctx, integ, sleep, what):
     os.makedirs(os.path.join(report.VERIF, "replays", PID), exist_ok=True)
     path = os.path.join(report.VERIF, "replays", PID, f"{ctx.unit.replace('/', '_')}.{what}.json")
     with open(path, "w") as f:
-      json.dump({"property": PID, "xml": xml_for(integ, sleep=sleep), "how": ("both spheres asleep after 400 mj_step, put_data, then xfrc_applied[body 1, z] = 50 (user input before the step); " if sleep else "random qvel, ctrl 0.7, 3 mj_step; ") + "put_data twice; mjw.step vs mjw.step1 + mjw.step2 (mujoco's own mj_step vs mj_step1 + mj_step2 for comparison)", "fields": out, "step equals step1;step2": same}, f, indent=1)
+      json.dump({"property": PID, "xml": xml_for(integ, sleep=sleep), "how": ("both spheres asleep after 400 mj_step, put_data, then xfrc_applied[body 1, z] = 50 (user input before the step); " if sleep else "random qvel, ctrl 0.7, 3 mj_step, put_data, then new qvel / hinge angle / ctrl set by the user; ") + "put_data twice; mjw.step vs mjw.step1 + mjw.step2 (mujoco's own mj_step vs mj_step1 + mj_step2 for comparison)", "fields": out, "step equals step1;step2": same}, f, indent=1)
     return (not same), path
 
   return _rp
